@@ -602,6 +602,11 @@ pub fn run_with(cfg: &Cfg, property: &str) -> Report {
   let (_, vars, ctxs) = base_scope();
   let mut rng = Rng::new(cfg.seed);
   let thorough = cfg.tier == "thorough";
+  if property == "C13" {
+    // purity across evaluations: built-ins that could keep state between calls (compiled patterns)
+    let mut r2 = Rng::new(cfg.seed ^ 0x5eed);
+    crate::c08::regex_sequences(&mut rep, &mut r2, if thorough { 2000 } else { 200 });
+  }
   let n_random = if thorough { 300_000 } else { 25_000 };
   let max_depth = if thorough { 5 } else { 3 };
   let mut texts: Vec<String> = corpus().iter().map(|s| s.to_string()).collect();
